@@ -10,7 +10,7 @@
    interleavings is proved per finite scenario (the scenario is in the statement; the schedule is universally
    quantified, its length unbounded in the statement and bounded by the scenario): hence `_partial`. *)
 From Coq Require Import List Bool Arith.
-From SF Require Import Deploy.Model Deploy.Proofs.
+From SF Require Import Deploy.Model Deploy.Proofs Deploy.Inductive Deploy.Inductive2.
 Import ListNotations.
 
 (* --- return_after: a deploy request returns only after its connector's deploy() returned successfully ---
@@ -99,6 +99,53 @@ Proof. vm_compute. split; [tauto | reflexivity]. Qed.
 
 Print Assumptions C26_return_after_once_bounded_partial.
 Print Assumptions C26_sequential_teardown_bounded_partial.
+
+(* --- UNBOUNDED (third round): the deploy-only fragment on one eager deployment ---
+   For every configuration d of a non-wrapper, eager, never-failing deployment (any number of suspensions
+   inside connector.deploy), every request set in which every request is any number of deploy(d0) operations
+   (any number of requests), and EVERY list of scheduling choices (no validity hypothesis needed): every
+   deploy that returns OK finds a registered connector whose deploy() had returned successfully, and deploy()
+   is never called while another connector of d0 is live.  Proved by an inductive invariant over executions
+   (Deploy/Inductive.v), not by exploration.  `_partial` only in the program shape: no undeploy, no lazy
+   deployment, no failure, no wraps chain. *)
+Theorem C26_return_after_deploy_only_partial : forall d reqs sched,
+  wrapper d = false -> lazy d = false -> fails d = [] -> deploy_only reqs ->
+  ra_ok reqs (log (run false [d] (init reqs) sched)) = true.
+Proof. intros d reqs sched H1 H2 H3 H. exact (proj1 (deploy_only_all_executions d H1 H2 H3 reqs sched H)). Qed.
+
+Theorem C26_once_deploy_only_partial : forall d reqs sched,
+  wrapper d = false -> lazy d = false -> fails d = [] -> deploy_only reqs ->
+  once_ok (log (run false [d] (init reqs) sched)) = true.
+Proof. intros d reqs sched H1 H2 H3 H. exact (proj2 (deploy_only_all_executions d H1 H2 H3 reqs sched H)). Qed.
+
+Example C26_deploy_only_ex :
+  deploy_only [[ODeploy 0; ODeploy 0]; [ODeploy 0]; [ODeploy 0; ODeploy 0; ODeploy 0]; [ODeploy 0]; [ODeploy 0]] /\
+  valid false [plain 2 0] (init [[ODeploy 0; ODeploy 0]; [ODeploy 0]; [ODeploy 0]]) [0; 1; 2; 0; 0; 1; 2] = true.
+Proof. split. repeat constructor. vm_compute. reflexivity. Qed.
+
+Print Assumptions C26_return_after_deploy_only_partial.
+Print Assumptions C26_once_deploy_only_partial.
+
+(* --- UNBOUNDED: deploy AND undeploy on one eager deployment, clause `once` ---
+   Every request set in which every request is any sequence of deploy(d0) / undeploy(d0) operations (any
+   number of requests), any number of suspensions inside connector deploy/undeploy, EVERY list of scheduling
+   choices: deploy() is never called on a connector of d0 while another connector of d0 is live.  Inductive
+   invariant over executions (Deploy/Inductive2.v).  `_partial` in the program shape only (no lazy deployment,
+   no failure, no wraps chain); return_after for deploy+undeploy is not proved unboundedly (bounded family
+   above). *)
+Theorem C26_once_deploy_undeploy_partial : forall d reqs sched,
+  wrapper d = false -> lazy d = false -> fails d = [] -> deploy_undeploy reqs ->
+  once_ok (log (run false [d] (init reqs) sched)) = true.
+Proof. intros d reqs sched H1 H2 H3 H. exact (once_all_executions d H1 H2 H3 reqs sched H). Qed.
+
+Example C26_deploy_undeploy_ex :
+  deploy_undeploy [[ODeploy 0; OUndeploy 0; ODeploy 0]; [OUndeploy 0]; [OUndeploy 0; ODeploy 0]; [ODeploy 0]; [ODeploy 0]].
+Proof.
+  unfold deploy_undeploy. repeat (apply Forall_cons || apply Forall_nil); unfold okop;
+  first [left; reflexivity | right; reflexivity].
+Qed.
+
+Print Assumptions C26_once_deploy_undeploy_partial.
 
 (* --- fail_wakes is false of the current code: d1 wraps d0, d0's deploy fails; the second deploy(d1) is
    blocked for ever (no task is ready, task 1 is not done) *)
